@@ -512,7 +512,7 @@ def big_cases(ctx, lib, profile, add_case):
     split points inside them, at their end, and fixed-size reads whose completing chunk carries trailing data"""
     r = ctx.rng
     g = Gen(lib, r)
-    sizes = [1001, 1100, 1500, 3000, 4095, 4096, 5000] + ([16384, 17000, 70000] if profile == 'C05' or ctx.thorough else [16500, 66000])
+    sizes = [1001, 1100, 1500, 3000, 4095, 4096, 5000] + ([16384, 17000, 70000] if ctx.thorough else [16384, 70000] if profile == 'C05' else [16500, 66000])
     reps = 3 if ctx.thorough else 1
     for _ in range(reps):
         for S in sizes:
@@ -539,6 +539,8 @@ def big_cases(ctx, lib, profile, add_case):
             # truncated large message whose claimed length is then filled by following messages
             t = big('wrapper')
             shapes.append([('big_trunc', t[:r.choice([24, 100, len(t) // 2, len(t) - 1])])] + follow[:max(2, len(follow) // 2)] + follow)
+            if S >= 60000 and not ctx.thorough:
+                shapes = [shapes[0], shapes[2], shapes[3]]       # large valid, corrupted, false header
             for toks in shapes:
                 stream = b''.join(b for _, b in toks)
                 n = len(stream)
@@ -578,7 +580,7 @@ def build_cases(ctx, lib, profile):
         if profile == 'C04':
             return 'ONE;BYTES;c:' + ','.join(map(str, random_partition(r, n)))
         parts = ['ONE', 'BYTES']
-        if n <= (400 if thorough else 260):
+        if n <= (400 if thorough else 220):
             parts.append('SPLITS')
         else:
             parts += ['c:%d,%d' % (k, n - k) for k in sorted(set(r.randrange(1, n) for _ in range(40)))]
@@ -655,9 +657,9 @@ def build_cases(ctx, lib, profile):
     # bounded-exhaustive token sequences
     import itertools
     # C04: all sequences up to length 3 (quick) / 4 (thorough); C05 (about 100 chunkings per stream): all up to length 2
-    # and every 4th of length 3 (quick), all up to 3 and every 16th of length 4 (thorough)
+    # and every 6th of length 3 (quick), all up to 3 and every 16th of length 4 (thorough)
     full = {('C04', False): 3, ('C04', True): 4, ('C05', False): 2, ('C05', True): 3}[(profile, thorough)]
-    sampled = {('C04', False): None, ('C04', True): None, ('C05', False): (3, 4), ('C05', True): (4, 16)}[(profile, thorough)]
+    sampled = {('C04', False): None, ('C04', True): None, ('C05', False): (3, 6), ('C05', True): (4, 16)}[(profile, thorough)]
     k = 0
     for n in range(1, (sampled[0] if sampled else full) + 1):
         phase = r.randrange(sampled[1]) if sampled else 0
